@@ -83,7 +83,9 @@ def run(ctx):
     res.coverage["histories_generated"] = len(hists)
     singles = [[c] for c in v5]
     ctx.rng.shuffle(hists)
-    chosen = singles + hists[:ctx.pick(500, len(hists))]
+    # the same header strings through both block commands, in every order (on one manager)
+    reuse = [[a, b] for a in lines.REUSE_CLASSES for b in lines.REUSE_CLASSES if a != b]
+    chosen = singles + reuse + hists[:ctx.pick(500, len(hists))]
     if not ctx.quick:
         for _ in range(20000):
             chosen.append([ctx.rng.choice(v5) for _ in range(3)])
